@@ -192,6 +192,11 @@ class DtdGen:
                 a.decl = "#IMPLIED"
             elif r < 0.75 and t not in ("IDREF", "IDREFS"):
                 a.decl, a.value = "#FIXED", self.att_value(a, fixed=True)
+                if any(ch in a.value for ch in '&<"'):
+                    # libxml2's validator compares a #FIXED value with its own raw copy of the literal (& kept as &#38;, &lt; not
+                    # resolved): a correct document is reported invalid - an artefact of the oracle, so markup characters only go
+                    # into plain defaults
+                    a.value = "two words"
                 d.features.add("att-fixed")
             elif t not in ("IDREF", "IDREFS"):
                 a.decl, a.value = "default", self.att_value(a, fixed=True)
